@@ -92,6 +92,7 @@ struct Dfs {
     pos: usize,
     bound: usize,
     started: bool,
+    harvested: bool,
     pre_now: usize,
     fixed: Option<Vec<usize>>,
     steps_this: u64,
@@ -176,69 +177,125 @@ pub fn choose(n: usize) -> usize {
     .unwrap_or(0)
 }
 
-struct Sched(Rc<RefCell<Dfs>>);
-
-impl Scheduler for Sched {
-    fn new_execution(&mut self) -> Option<Schedule> {
-        let mut d = self.0.borrow_mut();
-        if d.done {
-            return None;
+impl Dfs {
+    /// Harvest the previous execution and move to the next one; false = this job is exhausted.
+    fn advance(&mut self) -> bool {
+        if self.started && !self.harvested {
+            self.harvest();
+            self.harvested = true;
         }
-        if d.started {
-            d.harvest();
-            if d.fixed.is_some() {
-                d.done = true;
-                d.out.complete = true;
-                return None;
+        if self.done {
+            return false;
+        }
+        if self.started {
+            if self.fixed.is_some() {
+                self.done = true;
+                self.out.complete = true;
+                return false;
             }
-            if d.out.violations.len() >= d.cfg.max_violations {
-                d.done = true;
-                d.out.cap = Some(format!("stopped after {} violations", d.out.violations.len()));
-                return None;
+            if self.out.violations.len() >= self.cfg.max_violations {
+                self.done = true;
+                self.out.cap = Some(format!("stopped after {} violations", self.out.violations.len()));
+                return false;
             }
             // backtrack
             loop {
-                match d.stack.last() {
+                match self.stack.last() {
                     None => {
-                        d.done = true;
-                        d.out.complete = true;
-                        return None;
+                        self.done = true;
+                        self.out.complete = true;
+                        return false;
                     }
                     Some(l) if l.idx() + 1 < l.len() => break,
                     _ => {
-                        d.stack.pop();
+                        self.stack.pop();
                     }
                 }
             }
-            if d.out.executions >= d.cfg.max_executions {
-                d.done = true;
-                d.out.cap = Some(format!("execution cap {} reached", d.cfg.max_executions));
-                return None;
+            if self.out.executions >= self.cfg.max_executions {
+                self.done = true;
+                self.out.cap = Some(format!("execution cap {} reached", self.cfg.max_executions));
+                return false;
             }
-            if let Some(dl) = d.cfg.deadline {
-                if d.out.executions % 64 == 0 && Instant::now() >= dl {
-                    d.done = true;
-                    d.out.cap = Some("wall-clock cap reached".to_string());
-                    return None;
+            if let Some(dl) = self.cfg.deadline {
+                if self.out.executions % 64 == 0 && Instant::now() >= dl {
+                    self.done = true;
+                    self.out.cap = Some("wall-clock cap reached".to_string());
+                    return false;
                 }
             }
-            match d.stack.last_mut().unwrap() {
+            match self.stack.last_mut().unwrap() {
                 Level::Task { idx, .. } | Level::Data { idx, .. } => *idx += 1,
             }
         }
-        d.started = true;
-        d.pos = 0;
-        d.pre_now = 0;
-        d.steps_this = 0;
-        d.out.executions += 1;
-        with_world(|w| w.begin_execution());
-        crate::obs::clear();
-        crate::chan::reset_streaks();
-        Some(Schedule::new(0))
+        self.started = true;
+        self.harvested = false;
+        self.pos = 0;
+        self.pre_now = 0;
+        self.steps_this = 0;
+        self.out.executions += 1;
+        true
+    }
+}
+
+pub type Body = Arc<dyn Fn() + Send + Sync>;
+
+/// One unit of work for `explore_stream`.
+pub struct StreamJob {
+    pub cfg: ExploreCfg,
+    pub fixed: Option<Vec<usize>>,
+    pub body: Body,
+}
+
+struct Stream {
+    dfs: Rc<RefCell<Dfs>>,
+    source: Box<dyn FnMut() -> Option<StreamJob>>,
+    sink: Box<dyn FnMut(ExploreOut)>,
+    finished: bool,
+    p0: u64,
+    t0: u64,
+}
+
+struct Sched(Rc<RefCell<Stream>>);
+
+impl Scheduler for Sched {
+    fn new_execution(&mut self) -> Option<Schedule> {
+        let mut st = self.0.borrow_mut();
+        if st.finished {
+            return None;
+        }
+        loop {
+            let go = st.dfs.borrow_mut().advance();
+            if go {
+                with_world(|w| w.begin_execution());
+                crate::obs::clear();
+                crate::chan::reset_streaks();
+                return Some(Schedule::new(0));
+            }
+            // job exhausted: hand out its result, fetch the next one
+            let mut out = st.dfs.borrow().out.clone();
+            let (p1, t1) = with_world(|w| (w.points, w.select_ties));
+            out.points = p1 - st.p0;
+            out.select_ties = t1 - st.t0;
+            st.p0 = p1;
+            st.t0 = t1;
+            (st.sink)(out);
+            match (st.source)() {
+                Some(j) => {
+                    *st.dfs.borrow_mut() = new_dfs(&j.cfg, j.fixed.clone());
+                    CUR_BODY.with(|b| *b.borrow_mut() = Some(j.body.clone()));
+                }
+                None => {
+                    st.finished = true;
+                    return None;
+                }
+            }
+        }
     }
 
     fn next_task(&mut self, runnable: &[&Task], current: Option<TaskId>, is_yielding: bool) -> Option<TaskId> {
-        let mut d = self.0.borrow_mut();
+        let dfs = self.0.borrow().dfs.clone();
+        let mut d = dfs.borrow_mut();
         d.out.steps += 1;
         d.steps_this += 1;
         if d.steps_this > d.cfg.step_cap {
@@ -264,8 +321,16 @@ impl Scheduler for Sched {
             return current;
         }
 
+        // A driver that is settling only yields again when scheduled: it is not a candidate while
+        // anything else can run (pure saving, and it keeps a spinning worker from ping-ponging
+        // with the driver forever while a third task starves).
         let others = |ids: &Vec<usize>| -> Vec<usize> {
             let mut v: Vec<usize> = ids.iter().copied().filter(|t| Some(*t) != cur).collect();
+            if let Some(d) = settling {
+                if Some(d) != cur && v.len() > 1 {
+                    v.retain(|t| *t != d);
+                }
+            }
             v.sort_unstable();
             v
         };
@@ -349,62 +414,87 @@ fn install_hook_once() {
     });
 }
 
-fn run(cfg: ExploreCfg, fixed: Option<Vec<usize>>, body: Arc<dyn Fn() + Send + Sync>) -> ExploreOut {
-    install_hook_once();
-    let dfs = Rc::new(RefCell::new(Dfs {
+thread_local! {
+    static CUR_BODY: RefCell<Option<Body>> = const { RefCell::new(None) };
+}
+
+fn new_dfs(cfg: &ExploreCfg, fixed: Option<Vec<usize>>) -> Dfs {
+    Dfs {
         stack: Vec::new(),
         pos: 0,
         bound: cfg.bound,
         started: false,
+        harvested: false,
         pre_now: 0,
         fixed,
         steps_this: 0,
         cfg: cfg.clone(),
         out: ExploreOut::default(),
         done: false,
-    }));
+    }
+}
+
+/// Explore a stream of jobs on this OS thread, re-using one shuttle runner (and its pool of
+/// coroutine stacks) across jobs.  `source` is asked for the next job whenever the current one is
+/// exhausted (it may configure the world for it); `sink` receives each job's result.
+pub fn explore_stream(mut source: Box<dyn FnMut() -> Option<StreamJob>>, sink: Box<dyn FnMut(ExploreOut)>) {
+    install_hook_once();
+    let first = match source() {
+        Some(j) => j,
+        None => return,
+    };
+    let stack_size = first.cfg.stack_size;
+    let dfs = Rc::new(RefCell::new(new_dfs(&first.cfg, first.fixed.clone())));
+    CUR_BODY.with(|b| *b.borrow_mut() = Some(first.body.clone()));
     DFS.with(|x| *x.borrow_mut() = Some(dfs.clone()));
     let (p0, t0) = with_world(|w| (w.points, w.select_ties));
+    let stream = Rc::new(RefCell::new(Stream { dfs: dfs.clone(), source, sink, finished: false, p0, t0 }));
     loop {
         let mut scfg = shuttle::Config::new();
         scfg.max_steps = shuttle::MaxSteps::None;
-        scfg.stack_size = cfg.stack_size;
+        scfg.stack_size = stack_size;
         scfg.failure_persistence = shuttle::FailurePersistence::None;
         scfg.silence_warnings = true;
         LAST_PANIC.with(|p| *p.borrow_mut() = None);
-        let sched = Sched(dfs.clone());
-        let b = body.clone();
+        let sched = Sched(stream.clone());
         let r = std::panic::catch_unwind(std::panic::AssertUnwindSafe(move || {
-            shuttle::Runner::new(sched, scfg).run(move || b());
+            shuttle::Runner::new(sched, scfg).run(move || {
+                let b = CUR_BODY.with(|b| b.borrow().clone());
+                if let Some(b) = b {
+                    b()
+                }
+            });
         }));
-        let mut d = dfs.borrow_mut();
         match r {
-            Ok(_) => {
-                break;
-            }
+            Ok(_) => break,
             Err(_) => {
                 let msg = LAST_PANIC.with(|p| p.borrow_mut().take()).unwrap_or_else(|| "<unknown panic>".into());
+                let mut d = dfs.borrow_mut();
                 if d.out.nondeterminism.is_some() || msg.contains("NONDETERMINISM") {
                     d.out.nondeterminism.get_or_insert(msg);
                     d.done = true;
-                    break;
+                } else {
+                    let kind = if msg.contains("deadlock") { "deadlock" } else { "panic" };
+                    with_world(|w| w.cur_violations.push((kind.to_string(), msg)));
                 }
-                let kind = if msg.contains("deadlock") { "deadlock" } else { "panic" };
-                with_world(|w| w.cur_violations.push((kind.to_string(), msg)));
-                if d.done {
-                    d.harvest();
-                    break;
-                }
-                // continue the DFS in a fresh runner; `new_execution` harvests and backtracks
+                // a fresh runner continues: its first `new_execution` harvests and backtracks
             }
+        }
+        if stream.borrow().finished {
+            break;
         }
     }
     DFS.with(|x| *x.borrow_mut() = None);
-    let mut out = dfs.borrow().out.clone();
-    let (p1, t1) = with_world(|w| (w.points, w.select_ties));
-    out.points = p1 - p0;
-    out.select_ties = t1 - t0;
-    out
+    CUR_BODY.with(|b| *b.borrow_mut() = None);
+}
+
+fn run(cfg: ExploreCfg, fixed: Option<Vec<usize>>, body: Body) -> ExploreOut {
+    let job = Rc::new(RefCell::new(Some(StreamJob { cfg, fixed, body })));
+    let result = Rc::new(RefCell::new(None));
+    let r2 = result.clone();
+    explore_stream(Box::new(move || job.borrow_mut().take()), Box::new(move |o| *r2.borrow_mut() = Some(o)));
+    let r = result.borrow_mut().take();
+    r.unwrap_or_default()
 }
 
 /// Run `body` under every schedule with at most `cfg.bound` preemptions and every data choice.
